@@ -302,3 +302,26 @@ CONTRACTS.append(Contract(
     dynamic_types={"self": {"blueprint": ty.TOpaque("blueprint"), "diagnostics": ty.TOpaque("diag")}},
     properties=("C07", "C01"), min_obligations=1, no_replay=True, note="two wires between the same ordered pair"))
 CONTRACTS.append(add_conn)
+
+
+# =================================================================================================
+# entity_emitter._constant_comparison_row(comparator, left, right): the row emitted for a comparison of two integers is
+# `signal-0 = 0` read from NO wire when the comparison holds and `signal-0 != 0` when it does not — so the row is true exactly when
+# left CMP right, whatever is on the networks; an unknown comparator spelling is false.
+# =================================================================================================
+def _ccr_post(cmp_):
+    def post(a, res):
+        holds = A.cmp({"≤": "<=", "≥": ">=", "≠": "!=", "=": "=="}.get(cmp_, cmp_), a.left, a.right) if cmp_ != "?" else False
+        c = res["comparator"]
+        shape = res["first_signal"] == "signal-0" and res["first_signal_networks"] == set() and res["constant"] == 0
+        if isinstance(c, str):
+            return And(shape, c in ("=", "!="), holds if c == "=" else Not(holds))
+        return And(shape, Or(c == "=", c == "!="), ops.Iff(c == "=", holds))
+    return post
+
+
+for _c in ("<", "<=", "≤", ">", ">=", "≥", "=", "==", "!=", "≠", "?"):
+    CONTRACTS.append(Contract(
+        qualname="dsl_compiler/src/emission/entity_emitter.py::_constant_comparison_row", params={"comparator": ty.TConcrete(_c), "left": ty.Int, "right": ty.Int},
+        ensures=[("the row (signal-0 from no wire against 0) is true exactly when left CMP right", _ccr_post(_c))],
+        properties=("C01", "C07"), min_obligations=1, no_replay=True, note=f"comparator {_c}"))
